@@ -72,6 +72,11 @@ func runC05Traces(f *common.Flags, res *common.Result, m *mdl, n int) {
 					res.Notes = append(res.Notes, "shimmed worker failed during the trace comparison")
 					return
 				}
+				if resp.FdLeak != "" {
+					res.Violate(common.Violation{Kind: "impl-violation", Oracle: "fd-baseline",
+						Input: map[string]string{"history": hstr, "step": fmt.Sprint(i)}, Detail: fmt.Sprintf("step %d (%s) returned with descriptors still open: %s", i, h.Kind, resp.FdLeak),
+						Key: "c05t:fd:" + hstr})
+				}
 				// C05 promises the size of GetFile's file, not its bytes: drop the worker's content marker
 				impl := strings.TrimSuffix(resp.Results[0][0], " BADFILE")
 				var tr []string
@@ -82,9 +87,20 @@ func runC05Traces(f *common.Flags, res *common.Result, m *mdl, n int) {
 				var ans string
 				if d != nil {
 					m.hash(d)
-					ans = m.ask(strings.Replace(m.honestPutReq(id, entryTm(resp.Log), d), "put ", "putf -1 fail 0 ", 1))
-					if j := strings.LastIndex(ans, " | holds="); j >= 0 {
-						ans = ans[:j]
+					if h.Kind == "putbytes" {
+						var ch []string
+						for _, x := range chunk32k(d, len(d)-1) {
+							ch = append(ch, m.ref(x))
+						}
+						ans = m.ask(fmt.Sprintf("putbf -1 fail 0 %s %d %s", idhex, entryTm(resp.Log), strings.Join(ch, " ")))
+					} else {
+						ans = m.ask(strings.Replace(m.honestPutReq(id, entryTm(resp.Log), d), "put ", "putf -1 fail 0 ", 1))
+					}
+					var fds string
+					ans, _, fds = splitPutAnswer(ans)
+					if c := fdsDisagree(fds, "ok", resp.FdLeak); c != "" {
+						bad(i, h.Kind+"/descriptors", resp.FdLeak, c)
+						ok = false
 					}
 					ans = strings.TrimPrefix(ans, "DONE ")
 				} else {
